@@ -27,9 +27,13 @@ def payload_with_markup(rng):
 def holes(page, template):
     """Split a page by the template's literal segments; returns the five hole contents or None."""
     segs = template.split("%s")
-    if len(segs) != 6 or not page.startswith(segs[0]):
+    if len(segs) != 6:
         return None
-    out, pos = [], len(segs[0])
+    # Status() returns the template filled in; the status server wraps it in its page layout
+    i0 = page.find(segs[0])
+    if i0 < 0:
+        return None
+    out, pos = [], i0 + len(segs[0])
     for s in segs[1:]:
         i = page.find(s, pos) if s is not segs[-1] else page.rfind(s)
         if i < 0:
@@ -193,8 +197,15 @@ def session_streams(rng):
         c = gen.mixed_stream(rng, small=True)[0]
     elif r < 0.85:
         c = gen.hostile_stream(rng, rng.randint(1, 3000))
-    else:
+    elif r < 0.93:
         c = b"GET /MOUNT HTTP/1.1\r\nUser-Agent: NTRIP test\r\nAuthorization: Basic dXNlcjpwYXNz\r\n\r\n" + payload_with_markup(rng)
+    else:
+        # NTRIP request lines whose fields read as markup (whatever the proxy chooses to show about a request
+        # is traffic-derived text)
+        tgt = rng.choice([b"/<script>alert(1)</script>", b"/<img/src=x>", b"/M<b>OUNT</b>", b"/a>b<c"])
+        c = rng.choice([b"GET %s HTTP/1.1\r\nUser-Agent: NTRIP <i>test</i>\r\nAuthorization: Basic dXNlcjpwYXNz\r\n\r\n" % tgt,
+                        b"SOURCE pass<u>word</u> %s\r\nSource-Agent: NTRIP <b>x</b>\r\n\r\n" % tgt,
+                        b"GET %s HTTP/1.0\r\n\r\n" % tgt]) + payload_with_markup(rng)
     s = rng.choice([b"ICY 200 OK\r\n\r\n", b""]) + (gen.rand_bytes(rng, rng.randint(0, 4000)) if rng.random() < 0.6 else b"".join(gen.rand_frame(rng, small=True) for _ in range(rng.randint(0, 8))))
     return c, s
 
@@ -205,6 +216,7 @@ def relay_part(res, rng, nsessions):
         res.corr_ok = False
         res.corr_notes.append("go build ./apps/proxy failed:\n" + outb[-3000:])
         return
+    template = json.load(open(os.path.join(common.COQ, "gen", "facts.json")))["reportFormat"]
     wd = os.path.join(common.WORK, "C19")
     shutil.rmtree(wd, ignore_errors=True)
     os.makedirs(os.path.join(wd, "logs"))
@@ -303,6 +315,24 @@ def relay_part(res, rng, nsessions):
                                   "the upstream server did not receive exactly the client's bytes")
             if bytes(got) != sdata:
                 res.add_violation(dict(case, client_received=len(got)), "the client did not receive exactly the server's bytes")
+            # the page as the operator sees it, while the session's buffers are current: nothing between the
+            # template's own tags may contain markup (every hole is traffic-derived or a connection id and a time)
+            if (b"<" in cdata[:300] or sidx % 8 == 0) and proc.poll() is None:
+                try:
+                    page = urllib.request.urlopen("http://127.0.0.1:%d/status/report" % cport, timeout=6).read().decode("utf-8", "replace")
+                    hs = holes(page, template)
+                    res.count("status page checked right after a session")
+                    if hs is None:
+                        res.add_violation(dict(case, page=page[:600]), "the status page does not have the template's structure (markup injected?)")
+                    else:
+                        for idx, name in enumerate(("client leader", "client buffer dump", "server leader", "server buffer dump", "message list")):
+                            if "<" in hs[idx] or ">" in hs[idx]:
+                                k = min([i for i in (hs[idx].find("<"), hs[idx].find(">")) if i >= 0])
+                                res.add_violation(dict(case, part=name, excerpt=hs[idx][max(0, k - 80):k + 80]),
+                                                  "traffic-derived text in the status page is not HTML-escaped")
+                                break
+                except Exception as e:  # noqa
+                    res.count("status page fetch after a session failed")
             try:
                 cl.close()
             except OSError:
